@@ -32,6 +32,7 @@ type c08Plan struct {
 	Policy      simnet.Policy
 	Direct      bool   // observe the raw reply through the handler wrapper instead of end to end
 	SecondAsker bool   // a second asker fetches the same key concurrently
+	FramedLook  bool   // the stored value begins with the LEB128 of its own remaining length
 	Unopened    int    // FINDCONTENT requests of another peer for the same key whose announced uTP stream is never opened, before the judged request
 	Limit       int    // 0: default number of transfer slots of the responder, else 1 or 2
 	Prior       []byte // non-empty: the asker ran with this version set before (same identity and endpoint), contacted the responder, and restarted
@@ -70,7 +71,7 @@ func genC08(t *rapid.T) c08Plan {
 	if rapid.IntRange(0, 3).Draw(t, "hasprior") == 0 {
 		prior = rapid.SampledFrom([][]byte{{0}, {1}, {0, 1}}).Draw(t, "prior")
 	}
-	return c08Plan{Prior: prior, Unopened: rapid.SampledFrom([]int{0, 0, 1, 2, 3}).Draw(t, "unopened"), Limit: rapid.SampledFrom([]int{0, 1, 1, 2}).Draw(t, "limit"), VA: rapid.SampledFrom(sets).Draw(t, "va"), VB: rapid.SampledFrom(sets).Draw(t, "vb"),
+	return c08Plan{Prior: prior, FramedLook: rapid.IntRange(0, 3).Draw(t, "framedLook") == 0, Unopened: rapid.SampledFrom([]int{0, 0, 1, 2, 3}).Draw(t, "unopened"), Limit: rapid.SampledFrom([]int{0, 1, 1, 2}).Draw(t, "limit"), VA: rapid.SampledFrom(sets).Draw(t, "va"), VB: rapid.SampledFrom(sets).Draw(t, "vb"),
 		Held: rapid.IntRange(0, 3).Draw(t, "held") != 0, Size: genSize(t), Seed: rapid.Byte().Draw(t, "seed"),
 		KeySeed: rapid.Uint32().Draw(t, "key"), Table: genTableNodes(t, rapid.SampledFrom([]int{0, 6, 40, 272}).Draw(t, "maxN")),
 		AskerInTab: rapid.Bool().Draw(t, "askerInTab"), Policy: genPolicy(t), Direct: rapid.IntRange(0, 2).Draw(t, "direct") == 0,
@@ -164,6 +165,10 @@ func runC08(p c08Plan, c *stats.Case) error {
 	key := append([]byte{0x00}, byte(p.KeySeed), byte(p.KeySeed>>8), byte(p.KeySeed>>16), byte(p.KeySeed>>24))
 	contentID := b.P.ToContentId(key)
 	want := fillBytes(p.Size, p.Seed)
+	if p.FramedLook && p.Size > 2 {
+		want = selfDescribing(want) // read as a version-1 stream it would be one framed item; version 0 sends it as it is
+		c.Class("stored-value-looks-like-a-framed-stream")
+	}
 	if p.Held {
 		_ = store.Put(key, contentID, want)
 	}
